@@ -50,7 +50,8 @@ def with_options(draw, base):
 
 
 def strategy(tier):
-    return with_options(gen_hier.hier_case(tier, {'lattice': False}))
+    return with_options(gen_hier.hier_case(tier, {'lattice': False,
+                                                 'surface_tr': True}))
 
 
 def budget(tier):
